@@ -148,7 +148,7 @@ broadcast use axiom_terminate_to_nix;
 //@ def ENVS old(env), final(env)
 //@ def STATE_PARAMS command: &ArcCommand, command_state: &mut CommandState, previous_run: &mut Option<CommandState>, stop_timer: &mut Option<Timer>, on_end: &mut Vec<Flag>, on_end_restart: &mut Option<Flag>, error_handler: &mut ErrorHandler, spawn_hook: &mut SpawnHook, env: &mut Env
 //@ def RAISE_LOOP_PRE let ghost vx_l = *env; let ghost vx_oe = on_end@;
-//@ def INV_SM invariant env.live == vx_l.live, env.urgent == vx_l.urgent, env.high == vx_l.high, env.log == vx_l.log, env.now == vx_l.now, vx_it.seq() == vx_oe, 0 <= vx_it.index@ <= vx_oe.len(), env.raised@ =~= vx_l.raised@.union(prefix_ids(vx_oe, vx_it.index@ as int)),
+//@ def INV_SM invariant env.live == vx_l.live, env.urgent == vx_l.urgent, env.high == vx_l.high, env.log == vx_l.log, env.now == vx_l.now, vx_it.seq() == vx_oe, 0 <= vx_it.index@ <= vx_oe.len(), env.raised@ =~= vx_l.raised@.union(prefix_ids(vx_oe, vx_it.index@ as int)), // OBL:C07+C09.handlers.end_flags_loop_raises_exactly_the_parked_flags
 
 //@ def ARMED_PRE *old(stop_timer) is Some ==> control is Stop || control is Delete || control is NextEnding
 //@ def CH_PARAMS control: Control, done: Flag, $STATE_PARAMS
@@ -352,8 +352,8 @@ pub fn send_controls<const N: usize>(&self, controls: [Control; N], priority: Pr
 let ghost vx_l = *env; let ghost vx_cs = controls@;
 invariant
     vx_it.seq() == vx_cs, 0 <= vx_it.index@ <= vx_cs.len(), wf_tx(&self.control_queue),
-    sent(&vx_l, env, priority, vx_cs.subrange(0, vx_it.index@ as int)),
-    vx_it.index@ > 0 ==> last_ticket is Some && ticket_for(last_ticket->Some_0, self, qp(env, priority).last()),
+    sent(&vx_l, env, priority, vx_cs.subrange(0, vx_it.index@ as int)), // OBL:C10.send_controls.inv_prefix_sent_in_order
+    vx_it.index@ > 0 ==> last_ticket is Some && ticket_for(last_ticket->Some_0, self, qp(env, priority).last()), // OBL:C10.send_controls.inv_ticket_is_the_last_sent
     vx_l.raised == env.raised,
 //@ end
 //@ item Job::control
@@ -473,10 +473,10 @@ fn job_task(command: ArcCommand, mut receiver: PriorityReceiver, done: Flag, env
         final(env).raised@.contains(done.id), // OBL:C07.job_task.gone_raised_when_the_task_ends
 //@ loop 0
 invariant
-    wf_rx(&receiver),
+    wf_rx(&receiver), // OBL:C10.job_task.receiver_wellformed
     inv_live(&command_state, env), // OBL:C04.job_task.at_most_one_live_child_at_every_iteration
     inv_restart(stop_timer, on_end_restart, env), // OBL:C07.job_task.restart_ticket_covered_at_every_iteration
-    senders_ok(env.urgent@, env.high@),
+    senders_ok(env.urgent@, env.high@), // OBL:C06.job_task.urgent_and_high_queues_hold_only_their_classes
 //@ end
 
 //@ item control_groups_cover
